@@ -126,6 +126,7 @@ type KVObs struct {
 	HasTimer  bool
 	Timers    []int64
 	Now       int64
+	CollIDA   uint32
 	MaxCasAll uint64 // highest CAS stored or recorded anywhere in b1 and b2
 	MinCasA   uint64
 }
@@ -231,6 +232,7 @@ func (w *KVWorld) Observe() KVObs {
 	o.NextExp, o.HasTimer = rosmar.VerifExpiryState(w.H[0])
 	o.Timers = vrt.PendingTimers()
 	o.Now = vrt.NowNanos()
+	o.CollIDA = w.A[0].GetCollectionID()
 	dumps := []rosmar.VerifDump{d}
 	if w.H2 != nil {
 		d3, err := rosmar.VerifDumpAll(w.H2)
